@@ -33,6 +33,8 @@ BUDGET = {"quick": 400.0, "thorough": 3000.0}
 FOCUS = {
     "merge": ["operators/_merge.py", "observable/merge.py", "internal/concurrency.py"],
     "merge_all": ["operators/_merge.py", "internal/concurrency.py"],
+    "merge_all:outer": ["operators/_merge.py", "internal/concurrency.py"],
+    "flat_map:outer": ["operators/_flatmap.py", "operators/_merge.py", "internal/concurrency.py"],
     "flat_map": ["operators/_flatmap.py", "operators/_merge.py", "internal/concurrency.py"],
     "zip": ["observable/zip.py", "internal/concurrency.py"],
     "combine_latest": ["observable/combinelatest.py", "internal/concurrency.py"],
@@ -111,6 +113,10 @@ class H:
             o = reactivex.merge(*subs)
         elif op == "merge_all":
             o = reactivex.of(*subs).pipe(ops.merge_all())
+        elif op in ("merge_all:outer", "flat_map:outer"):
+            # the outer sequence is driven by its own thread too: it hands out the inner subjects and completes
+            st["outer"] = Subject()
+            o = st["outer"].pipe(ops.merge_all() if op == "merge_all:outer" else ops.flat_map(lambda x: x))
         elif op == "flat_map":
             o = reactivex.of(*range(n)).pipe(ops.flat_map(lambda i: subs[i]))
         elif op == "zip":
@@ -152,6 +158,14 @@ class H:
             return body
 
         bodies = [mk(i, s) for i, s in enumerate(self.seqs)]
+        if self.op.endswith(":outer"):
+            def outer_body():
+                for sub in st["subs"]:
+                    st["outer"].on_next(sub)
+                st["outer_done"] = True
+                st["outer"].on_completed()
+
+            bodies.insert(0, outer_body)
         if self.timed:
             # the window timer keeps re-arming itself: stop it once the source is done and one period has passed
             def stopper():
@@ -181,6 +195,10 @@ class H:
                 full = self.op == "window_with_time_or_count" and m["n"] >= 2
                 if not full and m["close"] - m["open"] < 1.0 - 1e-9:
                     P.append((f"{self.op}|window-closed-early", f"window {name} opened at clock {m['open']} closed at {m['close']} with {m['n']} elements (timespan 1.0" + (", count 2)" if self.op.endswith("count") else ")")))
+        if self.op.split(":")[0] in ("merge", "merge_all", "flat_map") and all(q[-1] == "C" for q in self.seqs):
+            # merge family: once the outer and every inner completed, the output must have completed (C11's rule, here under threads)
+            if "".join(st["logs"]["out"])[-1:] != "C":
+                P.append((f"{self.op}|never-completed", f"every source completed but downstream received {''.join(st['logs']['out'])!r} and no completion"))
         for name, log in st["logs"].items():
             s = "".join(log)
             t = [i for i, k in enumerate(s) if k in "EC"]
@@ -204,6 +222,13 @@ def harnesses(tier):
         if tier == "thorough" and op in ("merge", "zip", "combine_latest"):
             for tr in itertools.combinations_with_replacement(SEQ_Q, 3):
                 hs.append(H(op, tr))
+    for op in ("merge_all:outer", "flat_map:outer"):
+        inner = [("C",), ("N", "C"), ("N", "E")] if tier == "quick" else SEQ_T
+        for a in inner:
+            hs.append(H(op, (a,)))
+        if tier == "thorough":
+            for a, b in itertools.combinations_with_replacement(SEQ_Q, 2):
+                hs.append(H(op, (a, b)))
     for op in ("window_with_time", "window_with_time_or_count"):
         if tier == "quick":
             seqs_w = [("N", "N", "C")] if op == "window_with_time" else [("N", "C"), ("N", "N", "C")]
